@@ -131,6 +131,16 @@ def gen_cases(r):
     mid = ["zm: 8"] if r.random() < 0.5 else []
     add(wrap(r, ctx, [a] + mid + [b], extra=[decl("enum", "V9")]), "E11", "dup-field|" + ctx)
 
+    ctx = pick_ctx(r, ["root", "child", "struct", "child_struct"])
+    add(wrap(r, ctx, r.sample(["x: 8", "V5"], 2), extra=["group V5 { x: 8, gy: 8 }"]), "E11", "dup-field-via-group|" + ctx)
+    add(wrap(r, ctx, ["V5", "zs: 8", "V5"], extra=["group V5 { x: 8 }"]), "E11", "dup-field-group-used-twice|" + ctx)
+    kw = r.choice(["packet", "struct"])
+    add(["%s V0 { x: 8, _payload_ }" % kw, "%s V1 : V0 { x: %d }" % (kw, byte_w(r))], "E11", "dup-field-via-parent:" + kw)
+    add(["%s V0 { x: 8, _payload_ }" % kw, "%s V1 : V0 { y: 8, _payload_ }" % kw, "%s V2 : V1 { x: 8 }" % kw], "E11",
+        "dup-field-via-grandparent:" + kw)
+    add(["%s V0 { x: 8, _payload_ }" % kw, "%s V1 : V0 { y: 8 }" % kw, "%s V2 : V0 (x = 1) { y: 16 }" % kw], "OK",
+        "control:siblings-share-field-id:" + kw)
+
     # E12 / E13 tags
     w = W(r, 2, 63)
     m = (1 << w) - 1
